@@ -160,3 +160,78 @@ Definition agree (s : sys) : bool :=
 (* "every existing directory that can contain a relevant path is watched" *)
 Definition needed_watched (needed : path -> bool) (s : sys) : bool :=
   forallb (fun e => negb (needed (snd e)) || (installed (s_w s) (snd e) && dir_agrees s e)) (s_dirs s).
+
+(* ------------------------------------------------------------------------------------------ *)
+(* AsyncInotifyWrapper.dir_loop: one requested directory                                       *)
+(* ------------------------------------------------------------------------------------------ *)
+
+(* The translator (gen_watch.py _dir_loop_program) reads the body of dir_loop's `async for` statement by
+   statement into gen/GenWatch.v dir_loop_program : list dstmt:
+     DClimb record     while not (path.is_dir() or ... or path in ("", ".")):
+                           [self.watches.setdefault(path, None)]      <- present iff record
+                           path = path.parent
+     DPendRequested    if path != requested: self.watches.setdefault(requested, None)
+     DInstallUp        while ...: if self.watches.get(path) is not None: break; self._install_watch(path);
+                           if path == ".": break; path = path.parent
+   Paths are normalised and inside the project root (the ".." exits of the loops are not modelled). *)
+Definition w_setdefault (w : watches) (p : path) (v : bool) : watches :=
+  match w_get w p with Some _ => w | None => w_set w p v end.
+
+Definition stops_climb (s : sys) (p : path) : bool :=
+  match ino_of s p with Some _ => true | None => false end.     (* ino_of s "." = Some 0 *)
+
+Fixpoint climb (fuel : nat) (record : bool) (s : sys) (w : watches) (p : path) : watches * path :=
+  match fuel with
+  | O => (w, p)
+  | S f => if stops_climb s p then (w, p)
+           else climb f record s (if record then w_setdefault w p false else w) (parent p)
+  end.
+
+(* the levels the climb visits: the requested directory and its missing ancestors, bottom up *)
+Fixpoint climbed (fuel : nat) (s : sys) (p : path) : list path :=
+  match fuel with
+  | O => []
+  | S f => if stops_climb s p then [] else p :: climbed f s (parent p)
+  end.
+Definition climb_fuel (p : path) : nat := S (length p).
+Definition missing_levels (s : sys) (p : path) : list path := climbed (climb_fuel p) s p.
+
+Fixpoint install_up (fuel : nat) (s : sys) (kw : list (N * path)) (w : watches) (p : path)
+  : list (N * path) * watches :=
+  match fuel with
+  | O => (kw, w)
+  | S f => if installed w p then (kw, w)
+           else let w1 := w_set w p true in
+                let kw1 := kernel_add s kw p in
+                if str_eqb p DOT then (kw1, w1) else install_up f s kw1 w1 (parent p)
+  end.
+
+Record dl : Set := mk_dl { dl_s : sys; dl_path : path; dl_req : path }.
+
+Definition with_w (s : sys) (kw : list (N * path)) (w : watches) : sys :=
+  mk_sys (s_dirs s) (s_next s) kw (s_queue s) w (s_items s).
+
+Definition exec_dstmt (st : dstmt) (x : dl) : dl :=
+  let s := dl_s x in
+  match st with
+  | DClimb record =>
+      let r := climb (climb_fuel (dl_path x)) record s (s_w s) (dl_path x) in
+      mk_dl (with_w s (s_kw s) (fst r)) (snd r) (dl_req x)
+  | DPendRequested =>
+      if str_eqb (dl_path x) (dl_req x) then x
+      else mk_dl (with_w s (s_kw s) (w_setdefault (s_w s) (dl_req x) false)) (dl_path x) (dl_req x)
+  | DInstallUp =>
+      let r := install_up (climb_fuel (dl_path x)) s (s_kw s) (s_w s) (dl_path x) in
+      mk_dl (with_w s (fst r) (snd r)) (dl_path x) (dl_req x)
+  end.
+
+Fixpoint exec_dprog (prog : list dstmt) (x : dl) : dl :=
+  match prog with [] => x | st :: more => exec_dprog more (exec_dstmt st x) end.
+
+Definition dir_request_gen (prog : list dstmt) (s : sys) (p : path) : sys :=
+  dl_s (exec_dprog prog (mk_dl s p p)).
+(* the shape the coverage theorem is about, and the code as translated *)
+Definition base_dir_program : list dstmt := [DClimb true; DInstallUp].
+Definition dir_request : sys -> path -> sys := dir_request_gen dir_loop_program.
+(* several requests (Workflow: the base directories of patterns, the parents of static files) *)
+Definition dir_requests (s : sys) (ps : list path) : sys := fold_left dir_request ps s.
